@@ -190,5 +190,16 @@ def loop_key(fn, header, blocks):
             c = cfg.cond(b)
             if c is not None and any(s not in blocks for s in cfg.blocks[b].live_succs()):
                 break
-    t = show(strip(c))[:70] if c is not None else "?"
+    t = _canon(strip(c))[:70] if c is not None else "?"
     return "%s/loop %s" % (fn.name, t)
+
+
+def _canon(c):
+    """Text of a condition with comparisons spelt canonically (`a > b` as `(b < a)`), so that keys survive a re-spelling."""
+    c = strip(c)
+    if isinstance(c, dict) and c.get("k") == "bin":
+        if c["op"] in (">", ">="):
+            return "(%s %s %s)" % (_canon(c["r"]), {">": "<", ">=": "<="}[c["op"]], _canon(c["l"]))
+        if c["op"] in ("<", "<=", "==", "!=", "&&", "||"):
+            return "(%s %s %s)" % (_canon(c["l"]), c["op"], _canon(c["r"]))
+    return show(c)
